@@ -78,7 +78,7 @@ V6_FORMS = ["{h}:{h}:{h}:{h}:{h}:{h}:{h}:{h}", "::{h}", "{h}::", "::", "{h}::{h}
 def _ip_string(rng):
     oct_ = lambda: rng.weighted([(14, str(rng.randint(0, 255))), (1, rng.choice(IP_TOK))])
     hxt = lambda: rng.weighted([(20, "%x" % rng.randint(0, 0xffff)), (1, "%04X" % rng.randint(0, 0xffff)), (1, rng.choice(IP_TOK))])
-    form = rng.choice(V4_FORMS) if rng.chance(0.35) else rng.choice(V6_FORMS)
+    form = (V4_FORMS[0] if rng.chance(0.5) else rng.choice(V4_FORMS)) if rng.chance(0.4) else rng.choice(V6_FORMS)
     out = ""
     i = 0
     while i < len(form):
@@ -289,6 +289,8 @@ def setup_impl():
     if _S:
         return
     import ipaddress
+    import warnings
+    warnings.filterwarnings("ignore", message="Attribute.s length must be")
     from cryptography import x509
     from cryptography.hazmat.primitives import hashes, serialization
     from cryptography.hazmat.primitives.asymmetric import ec
